@@ -5,6 +5,9 @@ package main
 import (
 	"fmt"
 	"go/types"
+	"net"
+	"strconv"
+	"strings"
 )
 
 const promPkg = "github.com/prometheus/client_golang/prometheus"
@@ -350,6 +353,35 @@ func registerProm(p *Program) {
 	p.reg("verif:verifLabelLeaksAddr", func(e *Exec, g *G, a []Value) Value {
 		s := a[0].(*StrV)
 		switch s.Kind {
+		case SConc:
+			// concrete text: does it contain the address's IP or port text?
+			if len(a) > 1 {
+				if iv, ok := a[1].(IfaceV); ok && iv.T != nil {
+					if m := e.prog.lookupMethodByName(iv.T, nil, "String"); m != nil {
+						if at, ok := e.callSync(m, []Value{iv.V}, nil).(*StrV); ok {
+							host, port := "", ""
+							switch at.Kind {
+							case SConc:
+								if h, p, err := net.SplitHostPort(at.S); err == nil {
+									host, port = h, p
+								}
+							case SHostPort:
+								if b, ok := concBytes(at.IP); ok && at.Port.IsConst() {
+									ip := net.IP(b)
+									if ip4 := ip.To4(); ip4 != nil {
+										ip = ip4
+									}
+									host, port = ip.String(), strconv.Itoa(int(at.Port.Val))
+								}
+							}
+							if (host != "" && strings.Contains(s.S, host)) || (len(port) >= 4 && strings.Contains(s.S, port)) {
+								return e.tc.Bool(true)
+							}
+						}
+					}
+				}
+			}
+			return e.tc.Bool(false)
 		case SHostPort, SIPText:
 			return e.tc.Bool(true)
 		case SPortText:
